@@ -19,6 +19,92 @@ variable {α : Type} [Field α] [LinearOrder α] [IsStrictOrderedRing α]
 /-- partial sums `c_k = w_0 + … + w_{k-1}` -/
 def cum (l : List α) (k : Nat) : α := (l.take k).sum
 
+theorem cum_zero (l : List α) : cum l 0 = 0 := by simp [cum]
+
+theorem cum_cons_succ (v : α) (vs : List α) (k : Nat) : cum (v :: vs) (k + 1) = v + cum vs k := by
+  simp [cum]
+
+theorem cum_nonneg (l : List α) (hp : ∀ x ∈ l, 0 ≤ x) (k : Nat) : 0 ≤ cum l k :=
+  List.sum_nonneg (fun x hx => hp x (List.mem_of_mem_take hx))
+
+/-- the result counter of the sampler loop is only ever incremented -/
+theorem go_shift (l : List α) (rem : α) (res : Nat) :
+    multinomialSample.go l rem res = res + multinomialSample.go l rem 0 := by
+  induction l generalizing rem res with
+  | nil => simp [multinomialSample.go]
+  | cons v vs ih =>
+    simp only [multinomialSample.go]
+    split_ifs with h
+    · rw [ih (rem - v) (res + 1), ih (rem - v) (0 + 1)]; omega
+    · rfl
+
+theorem go_le (l : List α) (rem : α) (res : Nat) :
+    multinomialSample.go l rem res ≤ res + l.length := by
+  induction l generalizing rem res with
+  | nil => simp [multinomialSample.go]
+  | cons v vs ih =>
+    simp only [multinomialSample.go, List.length_cons]
+    split_ifs with h
+    · have := ih (rem - v) (res + 1); omega
+    · omega
+
+/-- the sampler loop on an arbitrary list of non-negative weights -/
+theorem go_zero_iff (l : List α) (hp : ∀ x ∈ l, 0 ≤ x) : ∀ (u : α) (k : Nat),
+    multinomialSample.go l u 0 = k ↔
+      k ≤ l.length ∧ (0 < k → cum l k < u) ∧ (k < l.length → u ≤ cum l (k + 1)) := by
+  induction l with
+  | nil =>
+    intro u k
+    simp only [multinomialSample.go, List.length_nil]
+    constructor
+    · intro h; subst h; exact ⟨le_refl _, fun h => absurd h (lt_irrefl _), fun h => absurd h (lt_irrefl _)⟩
+    · rintro ⟨h, -, -⟩; omega
+  | cons v vs ih =>
+    intro u k
+    have hvs : ∀ x ∈ vs, 0 ≤ x := fun x hx => hp x (List.mem_cons_of_mem _ hx)
+    simp only [multinomialSample.go, List.length_cons]
+    split_ifs with h
+    · rw [go_shift]
+      cases k with
+      | zero =>
+        constructor
+        · intro h'; omega
+        · rintro ⟨-, -, h3⟩
+          have := h3 (by omega)
+          rw [cum_cons_succ, cum_zero] at this
+          linarith
+      | succ j =>
+        rw [show (0 + 1 + multinomialSample.go vs (u - v) 0 = j + 1) ↔
+          multinomialSample.go vs (u - v) 0 = j from by omega, ih hvs (u - v) j]
+        simp only [cum_cons_succ]
+        constructor
+        · rintro ⟨h1, h2, h3⟩
+          refine ⟨by omega, fun _ => ?_, fun hj => ?_⟩
+          · rcases Nat.eq_zero_or_pos j with rfl | hj
+            · rw [cum_zero]; linarith
+            · have := h2 hj; linarith
+          · have := h3 (by omega); linarith
+        · rintro ⟨h1, h2, h3⟩
+          refine ⟨by omega, fun hj => ?_, fun hj => ?_⟩
+          · have := h2 (by omega); linarith
+          · have := h3 (by omega); linarith
+    · have hle : u ≤ v := not_lt.mp h
+      cases k with
+      | zero =>
+        constructor
+        · intro _
+          refine ⟨by omega, fun h0 => absurd h0 (lt_irrefl _), fun _ => ?_⟩
+          rw [cum_cons_succ, cum_zero]; linarith
+        · intro _; rfl
+      | succ j =>
+        constructor
+        · intro h'; omega
+        · rintro ⟨-, h2, -⟩
+          have h4 := h2 (by omega)
+          rw [cum_cons_succ] at h4
+          have := cum_nonneg vs hvs j
+          linarith
+
 /-- `Multinomial::sample` returns index `k` exactly when the variate lies in the `k`-th
 cumulative interval of all but the last weight: `c_k < u ≤ c_{k+1}` (for `k = 0` the lower
 end is open to the left: every `u ≤ c_1` gives `0`; for the last index there is no upper end).
@@ -27,12 +113,17 @@ theorem multinomial_interval (probs : List α) (u : α) (hp : ∀ x ∈ probs, 0
     multinomialSample probs u = k ↔
       k ≤ probs.dropLast.length ∧ (0 < k → cum probs.dropLast k < u) ∧
         (k < probs.dropLast.length → u ≤ cum probs.dropLast (k + 1)) := by
-  sorry
+  unfold multinomialSample
+  exact go_zero_iff probs.dropLast (fun x hx => hp x (List.mem_of_mem_dropLast hx)) u k
 
 /-- the result is always a valid index (for a non-empty weight vector) -/
 theorem multinomial_lt_length (probs : List α) (u : α) (hne : probs ≠ []) :
     multinomialSample probs u < probs.length := by
-  sorry
+  unfold multinomialSample
+  have h1 := go_le probs.dropLast u 0
+  have h2 : 0 < probs.length := List.length_pos_iff.mpr hne
+  rw [List.length_dropLast] at h1
+  omega
 
 /-- non-vacuity: weights `[1/4, 1/2, 1/4]`, variate `1/2` lies in `(1/4, 3/4]` -/
 example : multinomialSample ([1/4, 1/2, 1/4] : List ℚ) (1/2) = 1 := by
@@ -50,19 +141,105 @@ makes no draw and returns the cached outcome -/
 theorem sampleChance_cached (draw : DrawFn α) (pass : Nat) (probs : List α) (i k : Nat)
     (d : DrawSt α) (h : assocGet d.chance i = some k) :
     sampleChance draw pass probs i d = (k, d) := by
-  sorry
+  simp only [sampleChance, h]
 
 /-- after a request the outcome is cached, so every later chance node of that infoset follows it -/
 theorem sampleChance_caches (draw : DrawFn α) (pass : Nat) (probs : List α) (i : Nat) (d : DrawSt α) :
     assocGet (sampleChance draw pass probs i d).2.chance i = some (sampleChance draw pass probs i d).1 := by
-  sorry
+  cases h : assocGet d.chance i with
+  | some k => rw [sampleChance_cached draw pass probs i k d h]; exact h
+  | none =>
+    simp only [sampleChance, h]
+    simp [assocGet]
 
 /-- a fresh draw asks the oracle with the declared weights and logs exactly that -/
 theorem sampleChance_fresh (draw : DrawFn α) (pass : Nat) (probs : List α) (i : Nat)
     (d : DrawSt α) (h : assocGet d.chance i = none) :
     (sampleChance draw pass probs i d).1 = draw 0 i pass probs ∧
     (sampleChance draw pass probs i d).2.log = ⟨0, i, pass, probs, draw 0 i pass probs⟩ :: d.log := by
-  sorry
+  simp only [sampleChance, h, and_self]
+
+/-- the cache after a fresh draw -/
+theorem sampleChance_fresh_chance (draw : DrawFn α) (pass : Nat) (probs : List α) (i : Nat)
+    (d : DrawSt α) (h : assocGet d.chance i = none) :
+    (sampleChance draw pass probs i d).2.chance = (i, draw 0 i pass probs) :: d.chance := by
+  simp only [sampleChance, h]
+
+theorem assocGet_cons (a b : Nat) (l : List (Nat × Nat)) (j : Nat) :
+    assocGet ((a, b) :: l) j = if a = j then some b else assocGet l j := by
+  unfold assocGet
+  by_cases hj : a = j
+  · simp [hj]
+  · simp [hj]
+
+theorem samplePlayer_cached (draw : DrawFn α) (kind pass : Nat) (strat : List α) (i k : Nat)
+    (d : DrawSt α) (h : assocGet d.player i = some k) :
+    samplePlayer draw kind pass strat i d = (k, d) := by
+  simp only [samplePlayer, h]
+
+theorem samplePlayer_fresh (draw : DrawFn α) (kind pass : Nat) (strat : List α) (i : Nat)
+    (d : DrawSt α) (h : assocGet d.player i = none) :
+    (samplePlayer draw kind pass strat i d).2.log
+      = ⟨kind, i, pass, strat, draw kind i pass strat⟩ :: d.log := by
+  simp only [samplePlayer, h]
+
+/-! ### a traversal composes sampler steps
+
+Every relation between draw states that is reflexive, transitive and holds across one
+`sampleChance` request holds across a whole vanilla traversal (and across each of its loops). -/
+
+mutual
+theorem vrec_rel (c : VCtx α) (R : DrawSt α → DrawSt α → Prop) (hr : ∀ d, R d d)
+    (ht : ∀ a b e, R a b → R b e → R a e)
+    (hs : c.sampled = true → ∀ i d, R d (sampleChance c.draw c.pass (c.ch.getD i []) i d).2) :
+    ∀ (n : Node α) (pc p1 p2 : α) (d : DrawSt α), R d (vrec c n pc p1 p2 d).2.2
+  | .term p, pc, p1, p2, d => by simp only [vrec]; exact hr d
+  | .chance i ks, pc, p1, p2, d => by
+    simp only [vrec]
+    split_ifs with h
+    · exact ht _ _ _ (hs h i d) (vrecNth_rel c R hr ht hs ks _ pc p1 p2 _)
+    · exact vrecChance_rel c R hr ht hs _ ks pc p1 p2 d 0
+  | .player one i ks, pc, p1, p2, d => by
+    simp only [vrec]
+    exact vrecActs_rel c R hr ht hs one i _ _ ks pc p1 p2 d 0 0 0
+theorem vrecNth_rel (c : VCtx α) (R : DrawSt α → DrawSt α → Prop) (hr : ∀ d, R d d)
+    (ht : ∀ a b e, R a b → R b e → R a e)
+    (hs : c.sampled = true → ∀ i d, R d (sampleChance c.draw c.pass (c.ch.getD i []) i d).2) :
+    ∀ (ks : List (Node α)) (k : Nat) (pc p1 p2 : α) (d : DrawSt α),
+      R d (vrecNth c ks k pc p1 p2 d).2.2
+  | [], _, _, _, _, d => by simp only [vrecNth]; exact hr d
+  | k :: _, 0, pc, p1, p2, d => by simp only [vrecNth]; exact vrec_rel c R hr ht hs k pc p1 p2 d
+  | _ :: ks, n + 1, pc, p1, p2, d => by
+    simp only [vrecNth]; exact vrecNth_rel c R hr ht hs ks n pc p1 p2 d
+theorem vrecChance_rel (c : VCtx α) (R : DrawSt α → DrawSt α → Prop) (hr : ∀ d, R d d)
+    (ht : ∀ a b e, R a b → R b e → R a e)
+    (hs : c.sampled = true → ∀ i d, R d (sampleChance c.draw c.pass (c.ch.getD i []) i d).2) :
+    ∀ (ps : List α) (ks : List (Node α)) (pc p1 p2 : α) (d : DrawSt α) (acc : α),
+      R d (vrecChance c ps ks pc p1 p2 d acc).2.2
+  | p :: ps, k :: ks, pc, p1, p2, d, acc => by
+    simp only [vrecChance]
+    exact ht _ _ _ (vrec_rel c R hr ht hs k (pc * p) p1 p2 d)
+      (vrecChance_rel c R hr ht hs ps ks pc p1 p2 _ _)
+  | [], _, _, _, _, d, _ => by simp only [vrecChance]; exact hr d
+  | _ :: _, [], _, _, _, d, _ => by simp only [vrecChance]; exact hr d
+theorem vrecActs_rel (c : VCtx α) (R : DrawSt α → DrawSt α → Prop) (hr : ∀ d, R d d)
+    (ht : ∀ a b e, R a b → R b e → R a e)
+    (hs : c.sampled = true → ∀ i d, R d (sampleChance c.draw c.pass (c.ch.getD i []) i d).2)
+    (one : Bool) (i : Nat) (mult : α) :
+    ∀ (σ : List α) (ks : List (Node α)) (pc p1 p2 : α) (d : DrawSt α) (a : Nat) (eo ex : α),
+      R d (vrecActs c one i mult σ ks pc p1 p2 d a eo ex).2.2.2
+  | s :: σ, k :: ks, pc, p1, p2, d, a, eo, ex => by
+    simp only [vrecActs]
+    cases one with
+    | true =>
+      exact ht _ _ _ (vrec_rel c R hr ht hs k pc (p1 * s) p2 d)
+        (vrecActs_rel c R hr ht hs true i mult σ ks pc p1 p2 _ _ _ _)
+    | false =>
+      exact ht _ _ _ (vrec_rel c R hr ht hs k pc p1 (p2 * s) d)
+        (vrecActs_rel c R hr ht hs false i mult σ ks pc p1 p2 _ _ _ _)
+  | [], _, _, _, _, d, _, _, _ => by simp only [vrecActs]; exact hr d
+  | _ :: _, [], _, _, _, d, _, _, _ => by simp only [vrecActs]; exact hr d
+end
 
 /-- what a well-formed log entry of a vanilla traversal looks like: a chance draw (kind `0`)
 of this pass, with the infoset's declared (normalised) probabilities, answered by the oracle -/
